@@ -3,6 +3,7 @@ CONSTANTS
   Vms = {"v1", "v2"}
   Caches = {"c1", "c2"}
   NProg = 8
+  RetryWithAll = FALSE
 INVARIANT NoWX
 INVARIANT NoFault
 INVARIANT RestsExecutable
